@@ -1,5 +1,6 @@
 import ThermoVerif.Lemmas.Reaction
 import ThermoVerif.Lemmas.ReactionParse
+import ThermoVerif.Lemmas.ReactionCall
 /-
 C05 — Reactions conserve mass and atoms and convert exactly X of the reactant.
 
@@ -17,15 +18,13 @@ The model is `ThermoVerif.Reaction` (Model/Reaction.lean), over `Rat`.  A row `a
 one row of the formula matrix (atoms of one element per chemical), for the molecular weights,
 or — tiled once per phase (`tile`) — for either of them against a flattened multi-phase
 material; every conservation theorem is stated for an arbitrary such row.
+
+This file holds the clause statements only.  The predicates they are stated over (`Balanced`, `Fits`,
+`IsWtOf`, `MemberWt`, `KindWt`, `total`) and the helper lemmas live in Lemmas/ReactionCall.lean (same
+namespace); list algebra in Lemmas/Reaction.lean; printer and parser lemmas in Lemmas/ReactionParse.lean.
 -/
 namespace ThermoVerif.Props.C05
 open ThermoVerif.Reaction
-
-/-- every reaction of the list is balanced with respect to the row `a` (`a · ν = 0`) -/
-def Balanced (a : Vec) (rxs : List Rxn) : Prop := ∀ rx ∈ rxs, dot a rx.nu = 0
-
-/-- every stoichiometry has the size of the material -/
-def Fits (rxs : List Rxn) (n : Vec) : Prop := ∀ rx ∈ rxs, rx.nu.length = n.length
 
 /-! ## atoms -/
 
@@ -99,13 +98,6 @@ theorem atoms_conserved (a : Vec) (k : Kind) (n : Vec)
     · intro m hm rx hrx; exact hbal rx (by simp only [Kind.rxns, List.mem_flatMap]; exact ⟨m, hm, hrx⟩)
     · intro m hm rx hrx; exact hfit rx (by simp only [Kind.rxns, List.mem_flatMap]; exact ⟨m, hm, hrx⟩)
 
-lemma length_kindReact (k : Kind) (n : Vec) (hfit : Fits k.rxns n) : (k.react n).length = n.length := by
-  cases k with
-  | member m => exact length_memberReact m n hfit
-  | system ms =>
-    refine length_reactSystem ms n ?_
-    intro m hm rx hrx; exact hfit rx (by simp only [Kind.rxns, List.mem_flatMap]; exact ⟨m, hm, hrx⟩)
-
 /-- non-vacuity: 2 H2 + O2 → 2 H2O over (H2O, H2, O2), reactant H2, X = 1/2, is balanced in H
 and in O, fits a 3-vector, and does change it. -/
 example : ∃ rx : Rxn, Rxn.make [2, -2, -1] 1 (1/2) = .ok rx ∧
@@ -114,26 +106,6 @@ example : ∃ rx : Rxn, Rxn.make [2, -2, -1] 1 (1/2) = .ok rx ∧
   refine ⟨⟨[1, -1, -1/2], 1, 1/2⟩, ?_, ?_, ?_, ?_, ?_⟩ <;> decide +kernel
 
 /-! ## mass -/
-
-/-- If every element row is balanced, so is the row of molecular weights `MW = mᵀA`. -/
-lemma mw_balanced (m : Vec) (A : List Vec) (N : Nat) (rxs : List Rxn)
-    (hA : ∀ row ∈ A, row.length = N) (hbal : ∀ row ∈ A, Balanced row rxs) :
-    Balanced (mwOf m A N) rxs := by
-  intro rx hrx
-  rw [dot_mwOf N rx.nu m A hA]
-  have : ∀ (m : Vec) (A : List Vec), (∀ row ∈ A, dot row rx.nu = 0) →
-      (List.zipWith (fun me row => me * dot row rx.nu) m A).sum = 0 := by
-    intro m
-    induction m with
-    | nil => intro A _; simp
-    | cons x xs ih =>
-      intro A hA'
-      cases A with
-      | nil => simp
-      | cons row rows =>
-        simp only [List.zipWith_cons_cons, List.sum_cons, hA' row (by simp), mul_zero, zero_add]
-        exact ih rows (fun r hr => hA' r (by simp [hr]))
-  exact this m A (fun row hrow => hbal row hrow rx hrx)
 
 /-- Mass is conserved (corollary of atom conservation through `MW = mᵀA`): for every kind of
 reaction object whose reactions are balanced in every element. -/
@@ -166,13 +138,6 @@ theorem mass_defect_single (m : Vec) (A : List Vec) (mw : Vec) (rx : Rxn) (n : V
 example : mwOf [1, 16] [[2, 2, 0], [1, 0, 2]] 3 = [18, 2, 32] := by decide +kernel
 
 /-! ## a single reaction consumes X of its reactant, the rest in stoichiometric proportion -/
-
-lemma make_ok (raw : Vec) (r : Nat) (X : Rat) (rx : Rxn) (h : Rxn.make raw r X = .ok rx) :
-    rescale raw r = .ok rx.nu ∧ rx.r = r ∧ rx.X = X := by
-  unfold Rxn.make at h
-  cases hr : rescale raw r with
-  | error e => rw [hr] at h; cases h
-  | ok nu => rw [hr] at h; cases h; exact ⟨rfl, rfl, rfl⟩
 
 /-- After `_rescale` the reactant's coefficient is −1 … -/
 theorem make_reactant (raw : Vec) (r : Nat) (X : Rat) (rx : Rxn) (h : Rxn.make raw r X = .ok rx) :
@@ -258,114 +223,6 @@ example : reactParallel [⟨[-1, 1], 0, 1/2⟩, ⟨[-1, 1], 0, 1/2⟩] [4, 0] = 
 
 /-! ## mol and wt basis act identically on a stream -/
 
-/-- `rxw` is what `set_reaction_basis(rx, 'wt')` makes of the rescaled mol-basis reaction `rx`
-(`mw` = molecular weights, tiled to the shape of the stoichiometry) -/
-def IsWtOf (mw : Vec) (rx rxw : Rxn) : Prop :=
-  rx.nu.getD rx.r 0 = -1 ∧ mw.getD rx.r 0 ≠ 0 ∧ rx.toWt mw = .ok rxw
-
-lemma toWt_ok (mw : Vec) (rx rxw : Rxn) (h : rx.toWt mw = .ok rxw) :
-    rescale (hmul rx.nu mw) rx.r = .ok rxw.nu ∧ rxw.r = rx.r ∧ rxw.X = rx.X := by
-  unfold Rxn.toWt at h
-  cases hr : rescale (hmul rx.nu mw) rx.r with
-  | error e => rw [hr] at h; cases h
-  | ok nu => rw [hr] at h; cases h; exact ⟨rfl, rfl, rfl⟩
-
-lemma isWtOf_nu (mw : Vec) (rx rxw : Rxn) (h : IsWtOf mw rx rxw) :
-    rxw.nu = (hmul rx.nu mw).map (· / mw.getD rx.r 0) ∧ rxw.r = rx.r ∧ rxw.X = rx.X := by
-  obtain ⟨h1, _, h3⟩ := h
-  obtain ⟨hr, hr2, hr3⟩ := toWt_ok mw rx rxw h3
-  obtain ⟨_, hnu⟩ := (rescale_ok_iff _ _ _).mp hr
-  refine ⟨?_, hr2, hr3⟩
-  rw [hnu, getD_hmul, h1]
-  congr 1; funext x; congr 1; ring
-
-/-- the one step everything rests on: adding `c · ν` in moles is adding `(c · MW_r) · ν_wt` in mass -/
-lemma axpy_wt (mw : Vec) (rx rxw : Rxn) (h : IsWtOf mw rx rxw) (c : Rat) (acc : Vec) :
-    axpy (c * mw.getD rx.r 0) rxw.nu (hmul acc mw) = hmul (axpy c rx.nu acc) mw := by
-  obtain ⟨hnu, _, _⟩ := isWtOf_nu mw rx rxw h
-  have h0 := h.2.1
-  rw [hnu, axpy_smul_right, hmul_axpy]
-  congr 1; field_simp
-
-lemma react_wt (mw : Vec) (rx rxw : Rxn) (h : IsWtOf mw rx rxw) (n : Vec) :
-    rxw.react (hmul n mw) = hmul (rx.react n) mw := by
-  obtain ⟨_, hr, hX⟩ := isWtOf_nu mw rx rxw h
-  unfold Rxn.react
-  rw [hr, hX, getD_hmul, ← axpy_wt mw rx rxw h]
-  congr 1; ring
-
-lemma series_wt (mw : Vec) : ∀ (rxs rxws : List Rxn), List.Forall₂ (IsWtOf mw) rxs rxws →
-    ∀ n, reactSeries rxws (hmul n mw) = hmul (reactSeries rxs n) mw := by
-  intro rxs rxws h
-  induction h with
-  | nil => intro n; rfl
-  | cons h1 _ ih =>
-    intro n
-    show reactSeries _ (Rxn.react _ (hmul n mw)) = hmul (reactSeries _ (Rxn.react _ n)) mw
-    rw [react_wt mw _ _ h1, ih]
-
-lemma applyExtents_wt (mw : Vec) : ∀ (rxs rxws : List Rxn), List.Forall₂ (IsWtOf mw) rxs rxws →
-    ∀ (es : List Rat) (acc : Vec),
-    applyExtents (List.zipWith (fun e (rx : Rxn) => e * mw.getD rx.r 0) es rxs) rxws (hmul acc mw)
-      = hmul (applyExtents es rxs acc) mw := by
-  intro rxs rxws h
-  induction h with
-  | nil => intro es acc; cases es <;> simp [applyExtents]
-  | cons h1 _ ih =>
-    intro es acc
-    cases es with
-    | nil => simp [applyExtents]
-    | cons e es =>
-      simp only [List.zipWith_cons_cons, applyExtents]
-      rw [axpy_wt mw _ _ h1, ih]
-
-lemma extents_wt (mw : Vec) : ∀ (rxs rxws : List Rxn), List.Forall₂ (IsWtOf mw) rxs rxws →
-    ∀ n, extents rxws (hmul n mw)
-      = List.zipWith (fun e (rx : Rxn) => e * mw.getD rx.r 0) (extents rxs n) rxs := by
-  intro rxs rxws h
-  induction h with
-  | nil => intro n; rfl
-  | @cons rx rxw _ _ h1 _ ih =>
-    intro n
-    obtain ⟨_, hr, hX⟩ := isWtOf_nu mw rx rxw h1
-    have := ih n
-    unfold extents at this ⊢
-    rw [List.map_cons, List.map_cons, List.zipWith_cons_cons, this]
-    congr 1
-    rw [hr, hX, getD_hmul]; ring
-
-lemma parallel_wt (mw : Vec) (rxs rxws : List Rxn) (h : List.Forall₂ (IsWtOf mw) rxs rxws) (n : Vec) :
-    reactParallel rxws (hmul n mw) = hmul (reactParallel rxs n) mw := by
-  unfold reactParallel
-  rw [extents_wt mw rxs rxws h, applyExtents_wt mw rxs rxws h]
-
-/-- member by member the weight-basis version of a reaction object -/
-inductive MemberWt (mw : Vec) : Member → Member → Prop
-  | single {rx rxw} : IsWtOf mw rx rxw → MemberWt mw (.single rx) (.single rxw)
-  | parallel {rxs rxws} : List.Forall₂ (IsWtOf mw) rxs rxws → MemberWt mw (.parallel rxs) (.parallel rxws)
-  | series {rxs rxws} : List.Forall₂ (IsWtOf mw) rxs rxws → MemberWt mw (.series rxs) (.series rxws)
-
-inductive KindWt (mw : Vec) : Kind → Kind → Prop
-  | member {m m'} : MemberWt mw m m' → KindWt mw (.member m) (.member m')
-  | system {ms ms'} : List.Forall₂ (MemberWt mw) ms ms' → KindWt mw (.system ms) (.system ms')
-
-lemma member_wt (mw : Vec) (m m' : Member) (h : MemberWt mw m m') (n : Vec) :
-    m'.react (hmul n mw) = hmul (m.react n) mw := by
-  cases h with
-  | single h => exact react_wt mw _ _ h n
-  | parallel h => exact parallel_wt mw _ _ h n
-  | series h => exact series_wt mw _ _ h n
-
-lemma system_wt (mw : Vec) : ∀ (ms ms' : List Member), List.Forall₂ (MemberWt mw) ms ms' →
-    ∀ n, reactSystem ms' (hmul n mw) = hmul (reactSystem ms n) mw := by
-  intro ms ms' h
-  induction h with
-  | nil => intro n; rfl
-  | cons h1 _ ih =>
-    intro n
-    show reactSystem _ (Member.react _ (hmul n mw)) = hmul (reactSystem _ (Member.react _ n)) mw
-    rw [member_wt mw _ _ h1, ih]
-
 /-- Reacting the mass flows with the weight-basis version is reacting the molar flows with the
 molar version, for every kind of reaction object … -/
 theorem basis_agree_mass (mw : Vec) (k kw : Kind) (h : KindWt mw k kw) (n : Vec) :
@@ -387,17 +244,6 @@ example : IsWtOf [18, 2, 32] ⟨[-1, 1, 1/2], 0, 1/2⟩ ⟨[-1, 1/9, 8/9], 0, 1/
   refine ⟨?_, ?_, ?_⟩ <;> decide +kernel
 
 /-! ## the feasibility step: no negative flow on a normal return, an error when one is required -/
-
-lemma feasibility_ok_iff (tol : Rat) (v out : Vec) :
-    feasibility tol v = .ok out ↔ ¬ negSum v < -tol ∧ out = clamp v := by
-  unfold feasibility
-  by_cases h : negSum v < -tol
-  · rw [if_pos h]; constructor
-    · intro hh; cases hh
-    · intro hh; exact absurd h hh.1
-  · rw [if_neg h]; constructor
-    · intro hh; injection hh with hh; exact ⟨h, hh.symm⟩
-    · intro hh; rw [hh.2]
 
 /-- `InfeasibleRegion` is raised exactly when the negatives sum below `-tol` … -/
 theorem raises_iff (tol : Rat) (v : Vec) :
@@ -456,25 +302,6 @@ example : feasibility feasTol [1, -1 / 2 ^ 45, 3] = .ok [1, 0, 3] ∧
 
 /-! ## the whole call on arrays and streams -/
 
-lemma core_ok (o : RObj) (tol : Rat) (flat out : Vec) (h : o.core tol flat = .ok out) :
-    Fits o.kind.rxns flat ∧ feasibility tol (o.kind.react flat) = .ok out := by
-  unfold RObj.core at h
-  split at h
-  · split at h
-    · rename_i hall
-      refine ⟨?_, h⟩
-      intro rx hrx
-      have := (List.all_eq_true.mp hall) rx hrx
-      simpa using this
-    · cases h
-  · cases h
-
-lemma length_core (o : RObj) (tol : Rat) (flat out : Vec) (h : o.core tol flat = .ok out) :
-    out.length = flat.length := by
-  obtain ⟨hfit, hf⟩ := core_ok o tol flat out h
-  obtain ⟨_, rfl⟩ := (feasibility_ok_iff _ _ _).mp hf
-  rw [length_clamp, length_kindReact _ _ hfit]
-
 /-- the reacting core: balanced rows are conserved up to the clamped amount, nothing is negative -/
 theorem core_conserves (o : RObj) (tol amax : Rat) (h0 : 0 ≤ amax) (a flat out : Vec)
     (ha : ∀ x ∈ a, |x| ≤ amax) (hbal : Balanced a o.kind.rxns) (h : o.core tol flat = .ok out) :
@@ -492,16 +319,6 @@ theorem core_conserves_exact (o : RObj) (tol : Rat) (a flat out : Vec)
   obtain ⟨_, rfl⟩ := (feasibility_ok_iff _ _ _).mp hf
   rw [clamp_of_nonneg _ hnn]
   exact ⟨rfl, atoms_conserved a o.kind flat hbal hfit⟩
-
-/-- total of the row `a` over the phase rows of a material (atoms of one element, or mass) -/
-def total (a : Vec) (rows : List Vec) : Rat := (rows.map (dot a)).sum
-
-lemma total_chunk (a : Vec) (p : Nat) (v : Vec) (h : v.length = p * a.length) :
-    total a (chunk a.length p v) = dot (tile p a) v := by
-  unfold total
-  have h1 := dot_tile_flatten a (chunk a.length p v) (chunk_rows_length a.length p v h)
-  rw [length_chunk, chunk_flatten a.length p v h] at h1
-  exact h1.symm
 
 /-- Arrays (1-d: one row; 2-d: one row per phase) and streams of the object's own package on
 a molar basis: every balanced row — each element, and the mass — is conserved over the sum of
@@ -628,28 +445,6 @@ theorem remap_roundtrip (src dst : List Nat) (row mid back : Vec) (hn : src.Nodu
     (h2 : remapRow dst src mid = .ok back) : back = row :=
   remapRow_roundtrip src dst row mid back hn hl h1 h2
 
-lemma remapRows_ok (src dst : List Nat) : ∀ (rows out : List Vec), remapRows src dst rows = .ok out →
-    List.Forall₂ (fun r o => remapRow src dst r = .ok o) rows out := by
-  intro rows
-  induction rows with
-  | nil =>
-    intro out h
-    simp only [remapRows, List.mapM_nil, pure, Except.pure] at h
-    injection h with h; subst h; exact .nil
-  | cons r rs ih =>
-    intro out h
-    simp only [remapRows, List.mapM_cons, bind, Except.bind, pure, Except.pure] at h
-    cases hr : remapRow src dst r with
-    | error e => rw [hr] at h; cases h
-    | ok o =>
-      rw [hr] at h
-      cases hrs : List.mapM (remapRow src dst) rs with
-      | error e => simp only [hrs] at h; cases h
-      | ok os =>
-        simp only [hrs] at h
-        injection h with h; subst h
-        exact .cons hr (ih os hrs)
-
 /-- every per-chemical weighting has the same total over the phases before and after the move -/
 theorem total_remapRows (w : Nat → Rat) (src dst : List Nat) (hs : src.Nodup) (hd : dst.Nodup)
     (rows out : List Vec) (hrect : ∀ r ∈ rows, r.length = src.length)
@@ -673,28 +468,6 @@ theorem total_remapRows (w : Nat → Rat) (src dst : List Nat) (hs : src.Nodup) 
       rcases hr' with rfl | hr'
       · exact hlen
       · exact ih3 r' hr'
-
-/-- what `__call__` does with a stream of another package: there, react, and back -/
-lemma callStream_other (o : RObj) (tol : Rat) (ph pkg : List Nat) (rows rows' : List Vec)
-    (hne : (pkg == o.pkg) = false) (h : o.callStream tol ph pkg rows = .ok rows') :
-    ∃ rows1 rows2, remapRows pkg o.pkg rows = .ok rows1 ∧ o.callOwn tol rows1 = .ok rows2 ∧
-      remapRows o.pkg pkg rows2 = .ok rows' := by
-  unfold RObj.callStream at h
-  split at h
-  · cases h
-  · split at h
-    · cases h
-    · rw [hne] at h
-      simp only [Bool.false_eq_true, if_false, bind, Except.bind] at h
-      cases h1 : remapRows pkg o.pkg rows with
-      | error e => rw [h1] at h; cases h
-      | ok rows1 =>
-        rw [h1] at h
-        cases h2 : o.callOwn tol rows1 with
-        | error e => simp only [h2] at h; cases h
-        | ok rows2 =>
-          simp only [h2] at h
-          exact ⟨rows1, rows2, rfl, h2, h⟩
 
 /-- Streams of another package (molar basis): for every per-chemical weighting `w` that the
 reactions balance — atoms of each element, molecular weight — the total over the stream's
@@ -803,20 +576,6 @@ theorem force_keeps_nonneg (eps : Rat) (v : Vec) (i : Nat) (h : 0 ≤ v.getD i 0
     (removeNegligible eps v).getD i 0 = v.getD i 0 :=
   removeNegligible_keeps_nonneg eps v i h
 
-lemma coreForce_ok (o : RObj) (eps : Rat) (flat out : Vec) (h : o.coreForce eps flat = .ok out) :
-    Fits o.kind.rxns flat ∧ out = removeNegligible eps (o.kind.react flat) := by
-  unfold RObj.coreForce at h
-  split at h
-  · split at h
-    · rename_i hall
-      injection h with h
-      refine ⟨?_, h.symm⟩
-      intro rx hrx
-      have := (List.all_eq_true.mp hall) rx hrx
-      simpa using this
-    · cases h
-  · cases h
-
 /-- `force_reaction` conserves every balanced row up to the dropped negligible amounts:
 `|a · out − a · feed| ≤ amax · N · eps · (Σ|reacted| + 1)`. -/
 theorem force_conserves (o : RObj) (eps amax : Rat) (h0 : 0 ≤ eps) (ha0 : 0 ≤ amax) (a flat out : Vec)
@@ -858,49 +617,6 @@ example : removeNegligible negEps [5, 37/4, -1 / 2 ^ 60, -179/100] = [5, 37/4, 0
   refine ⟨?_, ?_, ?_⟩ <;> decide +kernel
 
 /-! ## streams of another package on the weight basis -/
-
-lemma callOwn_rows_length (o : RObj) (tol : Rat) (rows rows' : List Vec)
-    (hrect : ∀ r ∈ rows, r.length = o.pkg.length) (hmwlen : o.mw.length = o.pkg.length)
-    (h : o.callOwn tol rows = .ok rows') : ∀ r ∈ rows', r.length = o.pkg.length := by
-  have hflat := length_flatten_rect o.pkg.length rows hrect
-  have hmwT : (tile rows.length o.mw).length = rows.length * o.pkg.length := by rw [length_tile, hmwlen]
-  cases hb : o.basis with
-  | mol =>
-    have e1 : o.callOwn tol rows = (o.core tol rows.flatten).map (chunk o.pkg.length rows.length) := by
-      unfold RObj.callOwn; rw [hb]
-    rw [e1] at h
-    cases hc : o.core tol rows.flatten with
-    | error e => rw [hc] at h; cases h
-    | ok out =>
-      rw [hc] at h; injection h with h; subst h
-      exact chunk_rows_length o.pkg.length rows.length out (by rw [length_core o tol _ out hc, hflat])
-  | wt =>
-    have e2 : o.callOwn tol rows
-        = (o.core tol (hmul rows.flatten (tile rows.length o.mw))).map
-            (fun out => chunk o.pkg.length rows.length (hdiv out (tile rows.length o.mw))) := by
-      unfold RObj.callOwn; rw [hb]
-    rw [e2] at h
-    cases hc : o.core tol (hmul rows.flatten (tile rows.length o.mw)) with
-    | error e => rw [hc] at h; cases h
-    | ok out =>
-      rw [hc] at h; injection h with h; subst h
-      have hout : out.length = rows.length * o.pkg.length := by
-        rw [length_core o tol _ out hc, length_hmul _ _ (by rw [hflat, hmwT]), hflat]
-      exact chunk_rows_length o.pkg.length rows.length _
-        (by rw [length_hdiv _ _ (by rw [hout, hmwT]), hout])
-
-lemma remapRows_nonneg (src dst : List Nat) (rows out : List Vec) (h : remapRows src dst rows = .ok out)
-    (hn : ∀ r ∈ rows, ∀ x ∈ r, 0 ≤ x) : ∀ r ∈ out, ∀ x ∈ r, 0 ≤ x := by
-  have hf := remapRows_ok src dst rows out h
-  clear h
-  induction hf with
-  | nil => intro r hr; simp at hr
-  | @cons r o rs os h1 _ ih =>
-    intro r' hr'
-    simp only [List.mem_cons] at hr'
-    rcases hr' with rfl | hr'
-    · exact remapRow_nonneg src dst r _ h1 (hn r (by simp))
-    · exact ih (fun r'' hr'' => hn r'' (by simp [hr''])) r' hr'
 
 /-- Streams of another package, weight basis, end to end (there, through the mass flows, react,
 back): every per-chemical weighting `w` that the weight-basis stoichiometries balance per unit
@@ -1046,40 +762,6 @@ example : (RObj.mk (.system []) .mol [] [] [] [.mol, .wt]).core feasTol [] = .er
 
 /-! ## consumption at the level of the whole call -/
 
-lemma callOwn_mol_flat (o : RObj) (tol : Rat) (rows rows' : List Vec) (hb : o.basis = .mol)
-    (hrect : ∀ row ∈ rows, row.length = o.pkg.length) (h : o.callOwn tol rows = .ok rows') :
-    o.core tol rows.flatten = .ok rows'.flatten := by
-  have e1 : o.callOwn tol rows = (o.core tol rows.flatten).map (chunk o.pkg.length rows.length) := by
-    unfold RObj.callOwn; rw [hb]
-  rw [e1] at h
-  cases hc : o.core tol rows.flatten with
-  | error e => rw [hc] at h; cases h
-  | ok out =>
-    rw [hc] at h; injection h with h; subst h
-    rw [chunk_flatten o.pkg.length rows.length out
-      (by rw [length_core o tol _ out hc, length_flatten_rect o.pkg.length rows hrect])]
-
-lemma callOwn_wt_flat (o : RObj) (tol : Rat) (rows rows' : List Vec) (hb : o.basis = .wt)
-    (hrect : ∀ row ∈ rows, row.length = o.pkg.length) (hmwlen : o.mw.length = o.pkg.length)
-    (h : o.callOwn tol rows = .ok rows') :
-    ∃ out, o.core tol (hmul rows.flatten (tile rows.length o.mw)) = .ok out ∧
-      rows'.flatten = hdiv out (tile rows.length o.mw) := by
-  have e2 : o.callOwn tol rows
-      = (o.core tol (hmul rows.flatten (tile rows.length o.mw))).map
-          (fun out => chunk o.pkg.length rows.length (hdiv out (tile rows.length o.mw))) := by
-    unfold RObj.callOwn; rw [hb]
-  rw [e2] at h
-  have hflat := length_flatten_rect o.pkg.length rows hrect
-  have hmwT : (tile rows.length o.mw).length = rows.length * o.pkg.length := by rw [length_tile, hmwlen]
-  cases hc : o.core tol (hmul rows.flatten (tile rows.length o.mw)) with
-  | error e => rw [hc] at h; cases h
-  | ok out =>
-    rw [hc] at h; injection h with h; subst h
-    refine ⟨out, rfl, ?_⟩
-    have hout : out.length = rows.length * o.pkg.length := by
-      rw [length_core o tol _ out hc, length_hmul _ _ (by rw [hflat, hmwT]), hflat]
-    rw [chunk_flatten o.pkg.length rows.length _ (by rw [length_hdiv _ _ (by rw [hout, hmwT]), hout])]
-
 /-- The whole call (`__call__` on a stream of the object's own package, molar basis) of a single
 reaction built from the coefficients `raw`: when the conversion is feasible (the clamp has nothing
 to do) the reactant's flow — flattened over the phases — goes to `feed · (1 − X)` and every
@@ -1102,18 +784,6 @@ theorem call_consumes_X (raw : Vec) (r : Nat) (X : Rat) (rx : Rxn) (o : RObj) (t
     rw [← rescale_length raw r rx.nu (make_ok raw r X rx hmk).1]; exact this
   rw [hout]
   exact ⟨consumes_X raw r X rx _ hmk hl, fun i => stoichiometric_change raw r X rx _ hmk hl i⟩
-
-lemma getD_hdiv : ∀ (a b : Vec) (i : Nat), (hdiv a b).getD i 0 = a.getD i 0 / b.getD i 0 := by
-  intro a
-  induction a with
-  | nil => intro b i; simp
-  | cons x xs ih =>
-    intro b i
-    cases b with
-    | nil => simp
-    | cons y ys => cases i with
-      | zero => simp
-      | succ i => simpa using ih ys i
 
 /-- … and on the weight basis (the stream is routed through its mass flows): the mass flows after the
 call are the weight-basis reaction applied to the mass flows before — so every mass changes by
@@ -1210,5 +880,7 @@ theorem rebalance_balanced_wt (a mw : Vec) (rx rx' : Rxn) (x : Vec) (h : rx.reba
 (CH4, O2, H2O, CO2): the result is per mole of O2 -/
 example : (Rxn.mk [-1, -1, 1, 1] 1 (2/5)).rebalance .mol [] [-1, -2, 2, 1]
     = .ok ⟨[-1/2, -1, 1, 1/2], 1, 2/5⟩ := by decide +kernel
+
+
 
 end ThermoVerif.Props.C05
